@@ -1000,6 +1000,10 @@ func (g *generatorObject) step(res Value, resType resultType, ex *Exception) Val
 }
 
 func (g *generatorObject) delegate(v Value) Value {
+	// The generator is still running while yield* obtains the iterator: a re-entrant next()/throw()/return() made
+	// by a user-defined [Symbol.iterator]() must fail (GeneratorValidate).
+	state := g.state
+	g.state = genStateExecuting
 	ex := g.val.runtime.try(func() {
 		g.delegated = g.val.runtime.getIterator(v, nil)
 	})
@@ -1008,10 +1012,16 @@ func (g *generatorObject) delegate(v Value) Value {
 		g.state = genStateCompleted
 		return g.step(g.gen.nextThrow(ex))
 	}
+	g.state = state
 	return g.next(_undefined)
 }
 
 func (g *generatorObject) tryCallDelegated(fn func() (Value, bool)) (ret Value, done bool) {
+	// While a method of the delegate runs, the generator that executes `yield*` is running: a re-entrant
+	// next()/throw()/return() on it (made from inside the delegate's method) must throw a TypeError
+	// (GeneratorValidate) instead of calling the delegate again.
+	state := g.state
+	g.state = genStateExecuting
 	ex := g.val.runtime.try(func() {
 		ret, done = fn()
 	})
@@ -1020,6 +1030,7 @@ func (g *generatorObject) tryCallDelegated(fn func() (Value, bool)) (ret Value, 
 		g.state = genStateExecuting
 		return g.step(g.gen.nextThrow(ex)), false
 	}
+	g.state = state
 	return
 }
 
